@@ -26,7 +26,8 @@ def run_scenarios(chk, scenarios, tag):
             parsed.append(None)
             continue
         res, tr = parse(o)
-        if tr.get("panics", "0") != "0":
+        allowed = int(re.search(r" xpanic=(\d+)", sc).group(1)) if " xpanic=" in sc else 0
+        if int(tr.get("panics", "0")) > allowed:
             chk.monitor_fail("a task panicked during the simulated network run (panics=%s)" % tr.get("panics"), dict(case=sc, impl=o[:600]))
         parsed.append(res)
     return outs, parsed
@@ -1382,6 +1383,93 @@ def c12(chk):
         chk.sample(dict(case=scen[0][:400], impl=outs[0][-400:]))
 
 
+def c12_gated(chk):
+    """Calls abandoned while they wait for the service to become ready (a service that applies back-pressure through
+    poll_ready: the whole service of the callee sits behind a concurrency limit which one long call holds): they are
+    cancelled like any other - their requests never reach the handler, their streams are free again, and the call holding
+    the gate and a later call are served."""
+    quick = chk.tier == "quick"
+    scen, metas = [], []
+    for i in range(6 if quick else 40):
+        rng = chk.rng
+        gate = rng.choice([1, 1, 2])
+        maxbidi = rng.choice([8, 16])
+        hold_ms = rng.choice([3000, 6000])
+        k = maxbidi - gate - rng.choice([0, 1, 2])          # queued calls: they fill (almost) all remaining streams
+        cmds = ["seed=%d delay=1000" % rng.randrange(1 << 30),
+                "node 0 idle=600000 keepalive=5000 maxbidi=%d" % maxbidi,
+                "node 1 idle=600000 keepalive=5000 maxbidi=%d gate=%d" % (maxbidi, gate), "connect 0 1", "sleep 500"]
+        cmds += ["bg hold%d rpc 0 1 id=H%d size=10 sleep-ms=%d" % (g, g, hold_ms) for g in range(gate)]
+        cmds += ["sleep 50"]
+        cmds += ["bg q%d rpc 0 1 id=Q%d size=20 sleep-ms=5 abandon-us=%d" % (j, j, rng.choice([300000, 500000, 1000000])) for j in range(k)]
+        cmds += ["join q%d 600000" % j for j in range(k)]
+        # all queued calls have been abandoned (at most 1 s in); the gate is still held: a further call goes through the
+        # streams the abandoned calls gave back and is served as soon as the gate opens
+        cmds += ["rpc 0 1 id=fresh size=10"] + ["join hold%d 600000" % g for g in range(gate)] + ["sleep 200", "log 1", "stat 1", "peers 0"]
+        scen.append("simnet " + " ; ".join(cmds))
+        metas.append((gate, k, hold_ms))
+    outs, parsed = run_scenarios(chk, scen, "fabric:abandon-while-waiting-for-readiness")
+    for sc, o, res, (gate, k, hold_ms) in zip(scen, outs, parsed, metas):
+        if res is None:
+            continue
+        chk.nontriv(sc)
+        cl = [c.strip() for c in sc[len("simnet "):].split(" ; ")][1:]
+        r = dict(zip(cl, res))
+        ab = [r["join q%d 600000" % j] for j in range(k)]
+        chk.count("abandoned-while-waiting-for-readiness", len([x for x in ab if x.startswith("abandoned")]))
+        if not all(x.startswith("abandoned") for x in ab):
+            chk.monitor_fail("a call queued behind the gate returned before it was abandoned: %s" % [x[:30] for x in ab if not x.startswith("abandoned")][:2], dict(case=sc))
+            continue
+        fresh = r["rpc 0 1 id=fresh size=10"]
+        if not fresh.startswith("ok st=200") or int(fields(fresh)["t"]) > (hold_ms + 500) * 1000:
+            chk.monitor_fail("after %d calls abandoned while waiting for the service's readiness a fresh call %s (the gate opens after %d ms)" % (k, fresh[:60], hold_ms), dict(case=sc))
+        for g in range(gate):
+            if not r["join hold%d 600000" % g].startswith("ok st=200"):
+                chk.monitor_fail("the call holding the gate was disturbed: " + r["join hold%d 600000" % g][:80], dict(case=sc))
+        seen = [e.split(",")[0][3:] for e in r["log 1"].strip("[]").split("|") if e]
+        late = [x for x in seen if x.startswith("Q")]
+        if late:
+            chk.monitor_fail("%d request(s) abandoned while waiting for the service's readiness were handed to the handler later (%s)" % (len(late), late[:4]), dict(case=sc, impl=r["stat 1"]))
+        st = fields(r["stat 1"])
+        if int(st["started"]) - int(st["completed"]) - int(st["dropped"]) != 0:
+            chk.monitor_fail("handlers still running after everything was joined: " + r["stat 1"], dict(case=sc))
+
+
+def c09_handler_panic(chk):
+    """A request handler of the application panics.  Whatever the library makes of that (the pinned code lets the panic
+    take the whole network down), the views must stay mutual and every listed peer reachable."""
+    quick = chk.tier == "quick"
+    scen = []
+    for i in range(3 if quick else 12):
+        rng = chk.rng
+        cmds = ["seed=%d delay=%d xpanic=1" % (rng.randrange(1 << 30), rng.choice([500, 2000]))]
+        cmds += ["node %d key=%d name=n10 idle=10000 keepalive=1000 ctimeout=1000" % (j, 10 + j) for j in (1, 2, 3)]
+        cmds += ["connect 1 2", "connect 3 2", "sleep 300"]
+        if i % 3 == 1:
+            cmds += ["connect 2 1", "sleep 300"]
+        victim, caller = (2, 1) if i % 2 == 0 else (1, 2)
+        cmds += ["rpc %d %d id=boom size=5 panic=1" % (caller, victim), "sleep 13000", "peers 1", "peers 2", "peers 3"]
+        cmds += ["rpc %d %d id=p%d%d size=5" % (a, b, a, b) for a in (1, 2, 3) for b in (1, 2, 3) if a != b]
+        scen.append("simnet " + " ; ".join(cmds))
+    outs, parsed = run_scenarios(chk, scen, "fabric:handler-panic")
+    for sc, o, res in zip(scen, outs, parsed):
+        if res is None:
+            continue
+        chk.nontriv(sc)
+        cl = [c.strip() for c in sc[len("simnet "):].split(" ; ")][1:]
+        r = dict(zip(cl, res))
+        lists = {j: [x for x in r["peers %d" % j].strip("[]").split(",") if x and x != "gone"] for j in (1, 2, 3)}
+        for a in (1, 2, 3):
+            for b in (1, 2, 3):
+                if a == b:
+                    continue
+                if (str(b) in lists[a]) != (str(a) in lists[b]):
+                    chk.monitor_fail("after a handler panic and a quiet period node %d lists %d but not vice versa (%s / %s)" % (a, b, lists[a], lists[b]), dict(case=sc))
+                x = r["rpc %d %d id=p%d%d size=5" % (a, b, a, b)]
+                if str(b) in lists[a] and not x.startswith("ok st=200"):
+                    chk.monitor_fail("after a handler panic and a quiet period node %d lists %d but an RPC to it fails: %s" % (a, b, x[:60]), dict(case=sc))
+
+
 def req_bytes(route, headers, body):
     """Wire bytes of a request (layout of C07)."""
     import struct
@@ -1422,6 +1510,9 @@ def c06(chk):
         rng = chk.rng
         table = TABLES[(i - 1) % len(TABLES)] if i >= 2 else None
         rt = " routes=" + ",".join(x.encode().hex() for x in table) if table else ""
+        # in half of the scenarios the victim has an inbound default timeout (long enough not to touch the honest calls):
+        # the library then combines it with whatever the peer put into its `timeout` header
+        rt += " in_to=60000" if (rng.random() < 0.5 or i == 0) else ""
         cmds = ["seed=%d delay=%d" % (rng.randrange(1 << 30), rng.choice([500, 5000])),
                 "node 1 key=1 name=n10 idle=60000 keepalive=5000 maxbidi=32" + rt, "node 2 key=2 name=n10 idle=60000 keepalive=5000",
                 "adv 8 k=7 names=n10", "advdial 8 1 sni=n10", "connect 2 1", "sleep 300",
@@ -1436,6 +1527,10 @@ def c06(chk):
                     for back in range(1, len(ch.encode())):
                         v = ("1" * (off - back) + ch * 3).encode()
                         ops.append("advop 8 1 bi:%s:finish" % req_bytes(b"/echo", [(b"id", b"adv"), (b"timeout", v), (b"x-note", v)], b"hello").hex())
+        if i == 0:
+            # numeric edge values of the timeout header against a victim that has an inbound default of its own
+            for v in ("0", "1", "999", "999999", "1000000", "1000001", "59999999999", "60000000000", "60000000001", "18446744073709551615", "18446744073709551616"):
+                ops.append("advop 8 1 bi:%s:finish" % req_bytes(b"/echo", [(b"id", b"adv"), (b"timeout", v.encode())], b"hello").hex())
         if i == 1:
             # the same sweep for answers: well-formed responses whose header values hold a multi-byte character straddling each offset
             n = 0
@@ -1477,7 +1572,8 @@ def c06(chk):
                     k = rng.randrange(0, 70)
                     return rng.choice([
                         "1" * k + "\u00e9" * rng.randrange(1, 12), "\u00e9" * k, "\U0001F600" * rng.randrange(1, 20), "9" * k, "-" + "1" * k, " " * k,
-                        "1" * k + "\u20ac" + "x" * rng.randrange(0, 40), "\x00" * k, "18446744073709551616", "1e9", "+5", "0x10", ""]).encode()
+                        "1" * k + "\u20ac" + "x" * rng.randrange(0, 40), "\x00" * k, "18446744073709551616", "1e9", "+5", "0x10", "",
+                        "0", "1", "999", "999999", "1000000", "18446744073709551615", "00000000000000000000001"]).encode()
                 hs = [(b"id", b"adv")]
                 for _ in range(rng.randrange(1, 4)):
                     hs.append((rng.choice([b"timeout", b"timeout", b"status-message", b"content-type", b"x-" + nasty()[:20]]), nasty()))
@@ -2043,10 +2139,11 @@ def c08(chk):
             elif int(fields(x)["t"]) > bound_us:
                 chk.monitor_fail("shutdown took %s us, idle-wait bound is %d ms" % (fields(x)["t"], idle_wait), dict(case=sc))
         for c, x in zip(cmds, res):
-            if (c == "shutdown 0" or c.startswith("join s")) and x.startswith("ok closed="):
+            if (c == "shutdown 0" or c.startswith("join s")) and x.startswith(("ok closed=", "err closed=")):
                 f = fields(x)
+                # whichever way a shutdown call returns (Ok, or "has been shut down" for a repeated one): the network is closed by then
                 if f["closed"] != "1" or f["peers"] != "0":
-                    chk.monitor_fail("a shutdown call returned Ok while the network still reports closed=%s with %s peer(s)" % (f["closed"], f["peers"]), dict(case=sc))
+                    chk.monitor_fail("a shutdown call returned %s while the network still reports closed=%s with %s peer(s)" % (x.split()[0].capitalize(), f["closed"], f["peers"]), dict(case=sc))
         if mode == "burst":
             chk.count("burst-before-shutdown:%d-calls-mailbox-%s" % (len([j for j in jobs if j[1].startswith("connect 0")]), "default" if "mbox=" not in cmds[0] else cmds[0].split("mbox=")[1]))
             x = r["join s1 120000"][0]
